@@ -46,6 +46,10 @@ def affineAt {K V : Type} [Add V] [SMul K V] (a0 : V) : List K → List V → V
   | x :: xs, b :: bs => x • b + affineAt a0 xs bs
   | _, _ => a0
 
+/-- All multi-indices of the grid in C order (first axis slowest). -/
+def allIdx {K : Type} (axes : List (Axis K)) : List (List Nat) :=
+  cartesian (axes.map (fun a => List.range a.n))
+
 end OdlModel.C15
 
 open OdlModel OdlModel.Interp OdlModel.C15 OdlModel.Gen.Interp
@@ -577,4 +581,267 @@ example : ∃ a, Sampling.sample .ipOnly false 1 .point [1]
   obtain ⟨a, h1, h2, h3⟩ := C15.sampling_single_point .ipOnly 1
     (⟨[1, 1], fun idx => idx.length + 40⟩ : Sampling.Arr Nat) (Or.inr (Or.inr rfl))
   exact ⟨a, h1, h2, by rw [h3]; rfl⟩
+
+/-! ## Round 4: cell formula / continuity, uniform grids, `Resampling` and `linear_deform` end to end
+
+`uniformNode`, `resampling`, `linearDeform`, `deformedPoints`, `gridPoints` are executed by the
+driver (ops `grid`, `resample`, `deform`) and compared exactly with `uniform_discr(...).grid`,
+`Resampling(...)(x)` and `linear_deform(...)` on every run (streams `e2e/grid`, `e2e/resample`,
+`e2e/deform`): there the model receives only interval, shape, schemes, values and displacement
+and computes grids and evaluation points itself. -/
+
+/-- Linear axis, ANY cell `[c i, c (i+1)]` that contains `x` (not only the one `_find_indices`
+happens to select): the interpolant is the affine blend of the two node slices of THAT cell with
+`t = (x - c i) / (c (i+1) - c i)`.  At an interior node two cells qualify and both formulas hold,
+so the piecewise-affine interpolant is continuous across cell boundaries on non-uniform grids, in
+every dimension and for every scheme mix on the other axes, whichever side `searchsorted` assigns
+the node to. -/
+theorem C15.linear_cell_formula (a : Axis K) (ha : a.Good) (hs : a.scheme = .linear)
+    (as : List (Axis K)) (v : List Nat → V) (x : K) (xs : List K)
+    (i : Nat) (hi : i + 1 < a.n) (h1 : a.c i ≤ x) (h2 : x ≤ a.c (i + 1)) :
+    perAxisInterp (a :: as) v (x :: xs) =
+      (1 - (x - a.c i) / (a.c (i + 1) - a.c i)) • perAxisInterp as (fun idx => v (i :: idx)) xs +
+      ((x - a.c i) / (a.c (i + 1) - a.c i)) • perAxisInterp as (fun idx => v ((i + 1) :: idx)) xs := by
+  have hinc := ha.incr
+  have hlo : a.c 0 ≤ x := le_trans (hinc.mono (Nat.zero_le i) (by omega)) h1
+  have hhi : x ≤ a.c (a.n - 1) := le_trans h2 (hinc.mono (by omega) (by omega))
+  obtain ⟨j, t, hj, g1, g2, _, _, hxe, hstep⟩ := C15.linear_blend a ha hs as v x xs hlo hhi
+  have hdi : 0 < a.c (i + 1) - a.c i := by linarith [hinc i (i + 1) (by omega) hi]
+  have hdj : 0 < a.c (j + 1) - a.c j := by linarith [hinc j (j + 1) (by omega) hj]
+  have ht : t = (x - a.c j) / (a.c (j + 1) - a.c j) := by
+    rw [eq_div_iff (ne_of_gt hdj)]; linear_combination -hxe
+  rw [hstep, ht]
+  rcases Nat.lt_trichotomy j i with hlt | heq | hgt
+  · -- the cell found lies to the left: `x` is the shared node `c (j+1) = c i`
+    have hle : a.c (j + 1) ≤ a.c i := hinc.mono (by omega) (by omega)
+    have hx1 : x = a.c (j + 1) := le_antisymm g2 (le_trans hle h1)
+    have hx2 : x = a.c i := le_antisymm (by rw [hx1]; exact hle) h1
+    have hji : j + 1 = i := by
+      by_contra hne
+      have := hinc (j + 1) i (by omega) (by omega)
+      rw [← hx1, ← hx2] at this
+      exact lt_irrefl _ this
+    subst hji
+    rw [← hx1, div_self (ne_of_gt (by rw [hx1]; exact hdj))]
+    simp
+  · subst heq; rfl
+  · have hle : a.c (i + 1) ≤ a.c j := hinc.mono (by omega) (by omega)
+    have hx1 : x = a.c (i + 1) := le_antisymm h2 (le_trans hle g1)
+    have hx2 : x = a.c j := le_antisymm (by rw [hx1]; exact hle) g1
+    have hji : i + 1 = j := by
+      by_contra hne
+      have := hinc (i + 1) j (by omega) (by omega)
+      rw [← hx1, ← hx2] at this
+      exact lt_irrefl _ this
+    subst hji
+    rw [← hx1, div_self (ne_of_gt (by rw [hx1]; exact hdi))]
+    simp
+
+/-- Non-vacuity: nodes 0, 1, 4, 9; the node `x = 4` lies in cell 1 (`[1, 4]`, `t = 1`) and in
+cell 2 (`[4, 9]`, `t = 0`); the axis is well formed. -/
+example : (⟨4, fun i => ((i * i : Nat) : ℚ), .linear⟩ : Axis ℚ).Good ∧
+    ((4 : ℚ) - ((1 * 1 : Nat) : ℚ)) / (((2 * 2 : Nat) : ℚ) - ((1 * 1 : Nat) : ℚ)) = 1 ∧
+    ((4 : ℚ) - ((2 * 2 : Nat) : ℚ)) / (((3 * 3 : Nat) : ℚ) - ((2 * 2 : Nat) : ℚ)) = 0 :=
+  ⟨⟨by simp, incr_sq 4⟩, by norm_num, by norm_num⟩
+
+/-- The nodes `uniform_discr(lo, hi, n)` computes (`uniform_grid_fromintv`: `gmin`, `gmax` half a
+cell inside, then `np.linspace` with its `arange * step + start` and the overwritten last entry —
+`uniformNode`, executed and compared with the real grid) are the cell midpoints
+`lo + (2 i + 1) (hi - lo) / (2 n)`; for `lo < hi` they are strictly increasing (so every theorem
+with `Axis.Good` applies to uniform grids with `n ≥ 2`) and lie strictly inside `(lo, hi)`. -/
+theorem C15.uniform_grid_nodes (lo hi : K) (n : Nat) (s : Scheme) (hn : 1 ≤ n) :
+    (∀ i, i < n → (uniformAxis lo hi n s).c i = lo + (2 * (i : K) + 1) * ((hi - lo) / (2 * (n : K)))) ∧
+    (lo < hi → 2 ≤ n → (uniformAxis lo hi n s).Good) ∧
+    (lo < hi → ∀ x ∈ (uniformAxis lo hi n s).nodes, lo < x ∧ x < hi) := by
+  refine ⟨fun i hi' => uniformNode_eq lo hi n i hn hi', uniformAxis_good lo hi n s, ?_⟩
+  intro h x hx
+  simp only [Axis.nodes, List.mem_map, List.mem_range] at hx
+  obtain ⟨i, hi', rfl⟩ := hx
+  have hi' : i < n := hi'
+  show lo < uniformNode lo hi n i ∧ uniformNode lo hi n i < hi
+  rw [uniformNode_eq lo hi n i hn hi']
+  have hnK : (0 : K) < (n : K) := by exact_mod_cast hn
+  have hpos : 0 < (hi - lo) / (2 * (n : K)) := by apply div_pos <;> linarith
+  have hiK : (i : K) + 1 ≤ (n : K) := by exact_mod_cast hi'
+  have h0 : (0 : K) ≤ (i : K) := by exact_mod_cast Nat.zero_le i
+  have hfull : (2 * (n : K)) * ((hi - lo) / (2 * (n : K))) = hi - lo := by field_simp
+  constructor
+  · nlinarith
+  · nlinarith
+
+/-- Non-vacuity: `uniform_discr(0, 1, 4)` has the nodes 1/8, 3/8, 5/8, 7/8. -/
+example : (uniformAxis (0 : ℚ) 1 4 .linear).nodes = [1 / 8, 3 / 8, 5 / 8, 7 / 8] := by
+  decide +kernel
+
+/-- `Resampling(domain, range, interp)(x)` as executed (`resampling`: dispatch of
+`per_axis_interpolator`, mesh-grid convention on `range.meshgrid`) is the sampling of the
+single-point interpolant of the domain data at every point of the RANGE grid, in C order — for
+every dimension, scheme mix, non-uniform domain and range grids.  (Dispatch and the model's
+mesh combinator; NumPy's broadcasting is tied by the streams `e2e/resample` and `interp/mesh`.) -/
+theorem C15.resampling_samples_interpolant (dom ran : List (Axis K)) (hg : ∀ a ∈ dom, a.Good)
+    (hl : ran.length = dom.length) (v : List Nat → V) :
+    resampling dom ran v = (gridPoints ran).map (perAxisInterp dom v) := by
+  unfold resampling gridPoints
+  exact perAxisInterpolatorMesh_eq dom hg v _ (by simpa using hl)
+
+/-- Resampling onto a grid with the same nodes is the identity (the flat array of the stored
+values in C order), for every scheme mix, dimension and non-uniform grid; the range may carry
+different schemes. -/
+theorem C15.resampling_same_grid_identity (dom ran : List (Axis K)) (hg : ∀ a ∈ dom, a.Good)
+    (hr : ran.map Axis.nodes = dom.map Axis.nodes) (v : List Nat → V) :
+    resampling dom ran v = (allIdx dom).map v := by
+  have hl : ran.length = dom.length := by simpa using congrArg List.length hr
+  rw [C15.resampling_samples_interpolant dom ran hg hl, gridPoints, hr, ← gridPoints,
+    gridPoints_eq, List.map_map, allIdx]
+  apply List.map_congr_left
+  intro idx hidx
+  have hv : ValidIdx dom idx := mem_allIdx_lt dom idx hidx
+  exact (C15.interp_node_exact dom hg idx hv).1 v
+
+/-- Non-vacuity: a 2-d domain (uniform 3 cells on [0, 1] × non-uniform 0, 1, 4) with mixed
+schemes; the range has the same nodes and other schemes; nine indices in C order. -/
+example : let ax : List (Axis ℚ) := [uniformAxis 0 1 3 .linear, ⟨3, fun i => ((i * i : Nat) : ℚ), .nearest⟩]
+    let rn : List (Axis ℚ) := [uniformAxis 0 1 3 .nearest, ⟨3, fun i => ((i * i : Nat) : ℚ), .linear⟩]
+    (∀ a ∈ ax, a.Good) ∧ rn.map Axis.nodes = ax.map Axis.nodes ∧
+    allIdx ax = [[0, 0], [0, 1], [0, 2], [1, 0], [1, 1], [1, 2], [2, 0], [2, 1], [2, 2]] := by
+  intro ax rn
+  refine ⟨?_, rfl, by decide⟩
+  intro a ha
+  simp only [ax, List.mem_cons, List.mem_nil_iff, or_false] at ha
+  rcases ha with rfl | rfl
+  · exact uniformAxis_good 0 1 3 .linear (by norm_num) (by norm_num)
+  · exact ⟨by simp, incr_sq 3⟩
+
+/-- Linear `Resampling` is exact for affine data whenever the range nodes lie in the hull of the
+domain nodes: the result is the affine function on the range grid (any dimension, non-uniform
+grids, real or complex values). -/
+theorem C15.resampling_affine_exact (dom ran : List (Axis K))
+    (hg : ∀ a ∈ dom, a.Good ∧ a.scheme = .linear)
+    (hin : List.Forall₂ (fun a r => ∀ x ∈ Axis.nodes r, a.c 0 ≤ x ∧ x ≤ a.c (a.n - 1)) dom ran)
+    (a0 : V) (bs : List V) (hb : bs.length = dom.length) (v : List Nat → V)
+    (hv : ∀ idx, ValidIdx dom idx → v idx = affineAt a0 (gridPoint dom idx) bs) :
+    resampling dom ran v = (gridPoints ran).map (fun p => affineAt a0 p bs) := by
+  rw [C15.resampling_samples_interpolant dom ran (fun a ha => (hg a ha).1) hin.length_eq.symm]
+  apply List.map_congr_left
+  intro p hp
+  apply C15.linear_affine_exact dom hg a0 bs hb v hv
+  refine cartesian_forall₂ (fun a x => a.c 0 ≤ x ∧ x ≤ a.c (a.n - 1)) dom _ ?_ p hp
+  exact List.forall₂_map_right_iff.mpr hin
+
+/-- For two uniform discretisations of the same interval, the nodes of the one with FEWER (or
+equally many) cells lie in the hull of the other one's nodes.  So linear `Resampling` to a coarser
+or equal uniform grid is exact for affine data (`resampling_affine_exact`); to a finer grid it is
+not (example below): the outermost range nodes fall outside the hull, where the code extends
+towards zero. -/
+theorem C15.resampling_uniform_coarsen_in_hull (lo hi : K) (n m : Nat) (s s' : Scheme)
+    (h : lo < hi) (hm : 1 ≤ m) (hmn : m ≤ n) :
+    ∀ x ∈ (uniformAxis lo hi m s').nodes,
+      (uniformAxis lo hi n s).c 0 ≤ x ∧ x ≤ (uniformAxis lo hi n s).c ((uniformAxis lo hi n s).n - 1) := by
+  intro x hx
+  simp only [Axis.nodes, List.mem_map, List.mem_range] at hx
+  obtain ⟨i, hi', rfl⟩ := hx
+  have hi' : i < m := hi'
+  show uniformNode lo hi n 0 ≤ uniformNode lo hi m i ∧ uniformNode lo hi m i ≤ uniformNode lo hi n (n - 1)
+  rw [uniformNode_eq lo hi n 0 (by omega) (by omega), uniformNode_eq lo hi m i hm hi',
+    uniformNode_eq lo hi n (n - 1) (by omega) (by omega)]
+  have hmK : (0 : K) < (m : K) := by exact_mod_cast hm
+  have hnK : (0 : K) < (n : K) := by exact_mod_cast (by omega : 0 < n)
+  have hmnK : (m : K) ≤ (n : K) := by exact_mod_cast hmn
+  have hiK : (i : K) + 1 ≤ (m : K) := by exact_mod_cast hi'
+  have h0 : (0 : K) ≤ (i : K) := by exact_mod_cast Nat.zero_le i
+  have hn1 : ((n - 1 : Nat) : K) = (n : K) - 1 := by
+    have : 1 ≤ n := by omega
+    push_cast [this]; ring
+  rw [hn1]
+  have hd : 0 < hi - lo := by linarith
+  constructor
+  · rw [← sub_nonneg]
+    have : lo + (2 * (i : K) + 1) * ((hi - lo) / (2 * (m : K))) - (lo + (2 * ((0 : Nat) : K) + 1) * ((hi - lo) / (2 * (n : K))))
+        = (hi - lo) * ((2 * (i : K) + 1) * n - m) / (2 * m * n) := by
+      field_simp; push_cast; ring
+    rw [this]
+    apply div_nonneg
+    · apply mul_nonneg hd.le; nlinarith
+    · positivity
+  · rw [← sub_nonneg]
+    have : lo + (2 * ((n : K) - 1) + 1) * ((hi - lo) / (2 * (n : K))) - (lo + (2 * (i : K) + 1) * ((hi - lo) / (2 * (m : K))))
+        = (hi - lo) * ((2 * (n : K) - 1) * m - (2 * (i : K) + 1) * n) / (2 * m * n) := by
+      field_simp; ring
+    rw [this]
+    apply div_nonneg
+    · apply mul_nonneg hd.le; nlinarith
+    · positivity
+
+/-- Non-vacuity of `resampling_affine_exact` through `resampling_uniform_coarsen_in_hull`
+(4 → 2 cells on [0, 1]), and the failure in the other direction: sampling `f(x) = x` on 2 cells
+and resampling linearly to 4 cells gives 3/16 and 9/16 at the outer nodes 1/8 and 7/8. -/
+example : List.Forall₂ (fun (a r : Axis ℚ) => ∀ x ∈ Axis.nodes r, a.c 0 ≤ x ∧ x ≤ a.c (a.n - 1))
+      [uniformAxis 0 1 4 .linear] [uniformAxis 0 1 2 .linear] ∧
+    resampling [uniformAxis (0 : ℚ) 1 2 .linear] [uniformAxis (0 : ℚ) 1 4 .linear]
+      (fun idx => uniformNode (0 : ℚ) 1 2 (idx.headD 0)) = [3 / 16, 3 / 8, 5 / 8, 9 / 16] ∧
+    gridPoints [uniformAxis (0 : ℚ) 1 4 .linear] = [[1 / 8], [3 / 8], [5 / 8], [7 / 8]] :=
+  ⟨.cons (C15.resampling_uniform_coarsen_in_hull 0 1 4 2 .linear .linear (by norm_num)
+      (by norm_num) (by norm_num)) .nil, by decide +kernel, by decide +kernel⟩
+
+/-- `Resampling` is linear in its argument (what `linear=True` declares), as executed, for every
+scheme mix and dimension: `R(c•v + w) = c•R(v) + R(w)` entry by entry. -/
+theorem C15.resampling_linear (dom ran : List (Axis K)) (hg : ∀ a ∈ dom, a.Good)
+    (hl : ran.length = dom.length) (c : K) (v w : List Nat → V) :
+    resampling dom ran (fun idx => c • v idx + w idx) =
+      List.zipWith (fun a b => c • a + b) (resampling dom ran v) (resampling dom ran w) := by
+  simp only [C15.resampling_samples_interpolant dom ran hg hl, List.zipWith_map, List.zipWith_self]
+  apply List.map_congr_left
+  intro p _
+  exact C15.interp_linear_in_values dom c v w p
+
+/-- Non-vacuity: an instance with a 2 → 3 cell resampling over ℚ. -/
+example (v w : List Nat → ℚ) :=
+  C15.resampling_linear [uniformAxis (0 : ℚ) 1 2 .linear] [uniformAxis (0 : ℚ) 1 3 .nearest]
+    (fun a ha => by
+      simp only [List.mem_cons, List.mem_nil_iff, or_false] at ha
+      subst ha
+      exact uniformAxis_good 0 1 2 .linear (by norm_num) (by norm_num)) rfl (-3) v w
+
+/-- `linear_deform` with a zero displacement field returns the template (flat, C order), for
+every scheme mix, dimension and non-uniform grid: the displaced points `space.points() + 0` are
+the grid points and every interpolator reproduces node values. -/
+theorem C15.deform_zero_identity (axes : List (Axis K)) (hg : ∀ a ∈ axes, a.Good)
+    (v : List Nat → V) (disp : List (List K))
+    (hd : columns disp = (gridPoints axes).map (fun p => p.map (fun _ => (0 : K)))) :
+    linearDeform axes v disp = (allIdx axes).map v := by
+  unfold linearDeform deformedPoints
+  rw [hd, zipWith_add_zero, gridPoints_eq, List.map_map, allIdx]
+  apply List.map_congr_left
+  intro idx hidx
+  have hv : ValidIdx axes idx := mem_allIdx_lt axes idx hidx
+  simp only [Function.comp, perAxisInterpolator_eq axes hg]
+  exact (C15.interp_node_exact axes hg idx hv).1 v
+
+/-- Non-vacuity: the zero field on `uniform_discr(0, 1, 3)` (one component, three entries). -/
+example : columns [[(0 : ℚ), 0, 0]] =
+    (gridPoints [uniformAxis (0 : ℚ) 1 3 .linear]).map (fun p => p.map (fun _ => (0 : ℚ))) := by
+  decide +kernel
+
+/-- `linear_deform` of an affine template with linear interpolation is the affine function at the
+displaced points `x + v(x)`, whenever these stay in the hull of the grid nodes (any dimension,
+non-uniform grids). -/
+theorem C15.deform_affine_exact (axes : List (Axis K))
+    (hg : ∀ a ∈ axes, a.Good ∧ a.scheme = .linear) (disp : List (List K))
+    (hin : ∀ p ∈ deformedPoints axes disp, InHull axes p)
+    (a0 : V) (bs : List V) (hb : bs.length = axes.length) (v : List Nat → V)
+    (hv : ∀ idx, ValidIdx axes idx → v idx = affineAt a0 (gridPoint axes idx) bs) :
+    linearDeform axes v disp = (deformedPoints axes disp).map (fun p => affineAt a0 p bs) := by
+  unfold linearDeform
+  apply List.map_congr_left
+  intro p hp
+  rw [perAxisInterpolator_eq axes (fun a ha => (hg a ha).1)]
+  exact C15.linear_affine_exact axes hg a0 bs hb v hv p (hin p hp)
+
+/-- Non-vacuity: on `uniform_discr(0, 1, 4)` the displacement (1/8, 0, -1/8, -1/4) moves the nodes
+to 1/4, 3/8, 1/2, 5/8, all inside the hull [1/8, 7/8]. -/
+example : deformedPoints [uniformAxis (0 : ℚ) 1 4 .linear] [[1 / 8, 0, -1 / 8, -1 / 4]] =
+      [[1 / 4], [3 / 8], [1 / 2], [5 / 8]] ∧
+    InHull [uniformAxis (0 : ℚ) 1 4 .linear] [1 / 4] := by
+  refine ⟨by decide +kernel, .cons ?_ .nil⟩
+  norm_num [uniformAxis, uniformNode]
 end
